@@ -340,6 +340,15 @@ pub fn c14_repeat() {
     let mut rng = tape.restart();
     let r2 = FailAt { k: 5 }.apply_twice().apply(x, &mut rng);
     check!(matches!(r2, Ok(v) if v == [f(0, x), f(1, x)]) && rng.pos == 2, "apply_twice applies exactly twice");
+    // N = 0: nothing runs, nothing is drawn, the result is the empty array
+    log_reset();
+    let mut rng = tape.restart();
+    let r0 = FailAt { k: 0 }.apply_n_times::<0>().apply(x, &mut rng);
+    check!(r0.is_ok() && log_len() == 0 && rng.pos == 0, "repeat with N = 0 applies the operator zero times and consumes no randomness");
+    log_reset();
+    let mut rng = tape.restart();
+    let r1 = FailAt { k: 5 }.apply_n_times::<1>().apply(x, &mut rng);
+    check!(matches!(r1, Ok(v) if v == [f(0, x)]) && log_len() == 1 && rng.pos == 1, "repeat with N = 1 applies the operator exactly once");
     cover!(k == 1, "failure in the middle reachable");
     cover!(k == 3, "success reachable");
 }
